@@ -13,6 +13,8 @@ structure St where
   store : TL.Store := {}
   handlers : List (String × H) := []
   sinks : List (Nat × TL.SinkSt) := []
+  eh : Errs.Heap := #[]                  -- the `*errs.Error` cells that exist in the harness
+  sentinels : List (Nat × Nat) := []     -- sink ↦ heap cell of its long-lived sentinel error
 
 def getH (s : St) (n : String) : Option H := s.handlers.lookup n
 def setH (s : St) (n : String) (h : H) : St := { s with handlers := (n, h) :: s.handlers.filter (·.1 != n) }
@@ -73,21 +75,60 @@ def showWrites (ws : List (Nat × TL.Bytes)) : List String :=
     let mine := (ws.filter (·.1 == i)).map (·.2)
     "S" ++ toString i ++ "=" ++ toString mine.length ++ String.join (mine.map fun b => ":" ++ bytesHex b)
 
-def showRet : TL.Ret → String
-  | .nil => "ret=nil"
-  | .err s => "ret=E:sinkfail" ++ toString s
-  | .panic s => "ret=panic:sinkpanic" ++ toString s
+def errMsg (k : TL.ErrKind) (sink : Nat) : String :=
+  match k with
+  | .sentinel => "sinksentinel" ++ toString sink
+  | _ => "sinkfail" ++ toString sink
 
 def showItem : ML.ErrItem → String
   | .plain m => "E:" ++ m
   | .recovered m => "P:" ++ m
+
+/-- one element of `WrappedErrors()` as the harness prints it -/
+def showNode (eh : Errs.Heap) (n : Errs.ENode) : String :=
+  if n.msg == "recovered from panic" && n.cause != .nilIface then
+    "P:" ++ (match n.cause with | .ref c => Errs.message eh c | v => Errs.errorText v)
+  else "E:" ++ n.msg
+
+/-- an `error` value as the harness prints it: nil, a foreign error, or `Count()[WrappedErrors()...]` -/
+def showVal (eh : Errs.Heap) : Errs.Val → String
+  | .ref id => "ret=" ++ toString (Errs.count eh id) ++ "[" ++
+      ",".intercalate ((Errs.wrappedErrors eh id).map (showNode eh)) ++ "]"
+  | .plain _ m => "ret=E:" ++ m
+  | .typedNil => "ret=typed-nil"
+  | _ => "ret=nil"
+
+def strHex (m : String) : String := bytesHex (m.toUTF8.toList.map (·.toNat))
+
+/-- `Count()` and `Message()` of every sink's sentinel, in sink order -/
+def showSentinels (s : St) : String :=
+  let ss := s.sentinels.toArray.qsort (fun a b => a.1 < b.1) |>.toList
+  if ss.isEmpty then "sent=-" else
+  "sent=" ++ ",".intercalate (ss.map fun (k, id) =>
+    toString k ++ ":" ++ toString (Errs.count s.eh id) ++ ":" ++ strHex (Errs.message s.eh id))
+
+/-- the `error` value a tracelog child's `Handle` comes back with inside `runHandler` (a panic is recovered into
+    `NewWithCause("recovered from panic", Newf("%+v", recovered))`); fresh values are allocated on the heap -/
+def retVal (s : St) (ret : TL.Ret) : St × Errs.Val :=
+  match ret with
+  | .nil => (s, .nilIface)
+  | .err k .plain => (s, .plain 0 (errMsg .plain k))
+  | .err k .fresh => let (eh, v) := Errs.new s.eh (errMsg .fresh k); ({ s with eh := eh }, v)
+  | .err k .sentinel =>
+    match s.sentinels.lookup k with
+    | some id => (s, .ref id)
+    | none => (s, .nilIface)
+  | .panic k =>
+    let (eh, c) := Errs.new s.eh ("sinkpanic" ++ toString k)
+    let (eh, v) := Errs.newWithCause eh "recovered from panic" c
+    ({ s with eh := eh }, v)
 
 /-- the abstract child multilog sees: level threshold of the tracelog handler, outcome decided by its sink -/
 def childOf (s : St) (i : Nat) (c : TL.Handler) : ML.Child :=
   let sk := (getS s c.sink).getD {}
   let oc : ML.Outcome := match (TL.deliver sk c.sink []).2.2 with
     | .nil => .ok
-    | .err k => .err ("sinkfail" ++ toString k)
+    | .err k kind => .err (errMsg kind k)
     | .panic k => .panic ("sinkpanic" ++ toString k)
   { id := i, minLevel := c.level, outcome := oc }
 
@@ -104,15 +145,29 @@ def doLog (s : St) (h : H) (r : TL.Record) : St × String :=
   match h with
   | .tl t =>
     let (s', ws, ret) := tlHandle s t r
-    (s', " ".intercalate (showWrites ws ++ [showRet ret]))
+    let (s', out) := match ret with
+      | .panic k => (s', "ret=panic:sinkpanic" ++ toString k)
+      | ret => let (s2, v) := retVal s' ret; (s2, showVal s2.eh v)
+    (s', " ".intercalate (showWrites ws ++ [out, showSentinels s']))
   | .ml m =>
     let res := ML.handle (children s m) r.level
-    let (s', ws) := res.deliveries.foldl (fun (acc : St × List (Nat × TL.Bytes)) i =>
+    -- deliveries in order; each child's return value goes into the accumulation on the errs heap
+    let (s', ws, rets) := res.deliveries.foldl (fun (acc : St × List (Nat × TL.Bytes) × List Errs.Val) i =>
       match m.children[i]? with
-      | some c => let (s2, w, _) := tlHandle acc.1 c r; (s2, acc.2 ++ w)
-      | none => acc) (s, [])
-    let ret := if res.isNil then "ret=nil" else "ret=[" ++ ",".intercalate (res.errors.map showItem) ++ "]"
-    (s', " ".intercalate (showWrites ws ++ [ret]))
+      | some c =>
+        let (s2, w, ret) := tlHandle acc.1 c r
+        let (s3, v) := retVal s2 ret
+        (s3, acc.2.1 ++ w, acc.2.2 ++ [v])
+      | none => acc) (s, [], [])
+    let eh' := (ML.accumulate s'.eh rets).1
+    let v := ML.returned s'.eh rets
+    let s' := { s' with eh := eh' }
+    let ret := showVal eh' v
+    -- the list model (`ML.handle`, theorems fanout_*) and the heap model must tell the same story
+    let abstract := if res.isNil then "ret=nil"
+      else "ret=" ++ toString res.errors.length ++ "[" ++ ",".intercalate (res.errors.map showItem) ++ "]"
+    let ret := if ret == abstract then ret else ret ++ " list-model-differs:" ++ abstract
+    (s', " ".intercalate (showWrites ws ++ [ret, showSentinels s']))
 
 def isEnabled (s : St) (h : H) (level : Int) : Bool :=
   match h with
@@ -132,6 +187,8 @@ def step (s : St) (line : String) : St × String :=
       -- a fresh handler has a nil list: a slice of length 0
       let t : TL.Handler := { level := lvl, names := names, sink := sink, list := { arr := 0, len := 0 } }
       let sk : TL.SinkSt := { buf := if depth > 0 then some { cap := depth } else none }
+      let (eh, _) := Errs.new s.eh ("sinksentinel" ++ toString sink)
+      let s := { s with eh := eh, sentinels := (sink, s.eh.size) :: s.sentinels.filter (·.1 != sink) }
       (setS (setH s h (.tl t)) sink sk, "ok")
     | _, _, _, _ => (s, "bad-op")
   | "mnew" :: m :: kids =>
@@ -166,7 +223,8 @@ def step (s : St) (line : String) : St × String :=
       match getS s i with
       | some sk =>
         let mode? : Option TL.Mode := match m with
-          | "ok" => some .ok | "fail" => some .fail | "panic" => some .panic | "panice" => some .panic | _ => none
+          | "ok" => some .ok | "fail" => some (.fail .plain) | "faile" => some (.fail .fresh)
+          | "fails" => some (.fail .sentinel) | "panic" => some .panic | "panice" => some .panic | _ => none
         match mode? with
         | some md =>
           if sk.buf.isSome && md == .panic then (s, "bad-op") else (setS s i { sk with mode := md }, "ok")
@@ -212,7 +270,7 @@ def step (s : St) (line : String) : St × String :=
         let ws := words out
         let ws := ws.map fun w => if w.startsWith "ret=" && !w.startsWith "ret=panic:" then "ret=void" else w
         (s', " ".intercalate ws)
-      else (s, "ret=void")
+      else (s, "ret=void " ++ showSentinels s)
     | _, _, _, _ => (s, "bad-op")
   | _ => (s, "bad-op")
 
